@@ -674,6 +674,7 @@ int main(int argc, char** argv) {
     }
   }
   uint64_t nstates = merged_count(state_tab, state_bits);
+  if (vf_the_check.states_counter) nstates = tot[vf_the_check.states_counter - 1];
   uint64_t nout = merged_count(out_tab, OUT_BITS);
   for (int w = 0; w < nworkers; w++)
     if (S->w[w].state_full) vf_not_exhaustive("distinct-state table overflowed (state count is a lower bound)");
